@@ -212,7 +212,7 @@ fn run(rng: &mut Rng, idx: u64, tier: Tier) -> CaseOut {
 }
 
 fn run_big_in_child(model_name: &str, _j: u64, seed: u64, tier: Tier) -> CaseOut {
-    crate::bigrun::run_in_child("C11", model_name, seed, if tier == Tier::Quick { 40 } else { 120 })
+    crate::bigrun::run_in_child("C11", model_name, seed, if tier == Tier::Quick { 20 } else { 120 })
 }
 
 /// Body of a bundled-model case (runs in the child process, see bigrun.rs).
